@@ -427,6 +427,19 @@ def suite(ctx: Ctx, on: list[str], n_random_progs: int, n_sim: int, n_random_his
         if k not in seenh and len(seenh) < 12:
             seenh.add(k)
             behs.append(h)
+    # vacuity guard: which handlers / outcomes the replayed behaviours exercise
+    hk: dict = {}
+    oc: dict = {}
+    for b in behs:
+        for r in b["runs"]:
+            oc[f"{r['mode']}:{r['res']}"] = oc.get(f"{r['mode']}:{r['res']}", 0) + 1
+            for a in r["acts"]:
+                hk[a["h"]] = hk.get(a["h"], 0) + 1
+    ctx.note("behaviour_handler_counts", hk)
+    ctx.note("behaviour_run_outcomes", oc)
+    for need in ("exec", "done", "resolve", "reject", "finish"):
+        if not hk.get(need):
+            raise MachineryError(f"no replayed behaviour exercises the {need} handler: the check would be vacuous")
     expects: dict[int, list] = {}
     for b in behs:
         if not b.get("hung") and len(b["runs"]) == sum(1 for st in progs[b["pi"] - 1]["plan"] if st["k"] == "run"):
